@@ -284,6 +284,10 @@ func (db *Backend) ForceDeleteBucket(name string) error {
 }
 
 func (db *Backend) BucketExists(name string) (exists bool, err error) {
+	if bytes.Equal([]byte(name), db.metaBucketName) {
+		// the bookkeeping bucket is not an S3 bucket
+		return false, nil
+	}
 	err = db.bolt.View(func(tx *bolt.Tx) error {
 		b := tx.Bucket([]byte(name))
 		exists = b != nil
@@ -302,6 +306,11 @@ func (db *Backend) HeadObject(bucketName, objectName string) (*gofakes3.Object, 
 }
 
 func (db *Backend) GetObject(bucketName, objectName string, rangeRequest *gofakes3.ObjectRangeRequest) (*gofakes3.Object, error) {
+	if bytes.Equal([]byte(bucketName), db.metaBucketName) {
+		// the bookkeeping bucket is not an S3 bucket (reachable as a copy source)
+		return nil, gofakes3.BucketNotFound(bucketName)
+	}
+
 	var t boltObject
 
 	err := db.bolt.View(func(tx *bolt.Tx) error {
